@@ -245,11 +245,14 @@ def delta_seconds(before, after):
 def is_soon(dt, window):
     """Determines if time is going to happen in the next window seconds.
 
-    :param dt: the time
+    :param dt: the time (datetime, or ISO 8601 string)
     :param window: minimum seconds to remain to consider the time not soon
 
     :return: True if expiration is within the given duration
     """
+    if isinstance(dt, str):
+        dt = parse_isotime(dt)
+
     soon = (utcnow() + datetime.timedelta(seconds=window))
     return normalize_time(dt) <= soon
 
